@@ -3,8 +3,9 @@
 EXTENDS EnvCoherence
 
 SweepTo(n, to) == IF to = "last" THEN [k \in 1..n |-> k - 1] ELSE [k \in 1..n |-> n - k]
-RECURSIVE Cat(_)
-Cat(ss) == IF ss = <<>> THEN <<>> ELSE Head(ss) \o Cat(Tail(ss))
+RECURSIVE CatRange(_, _, _)
+CatRange(ss, lo, hi) == IF lo > hi THEN <<>> ELSE IF lo = hi THEN ss[lo] ELSE LET mid == (lo + hi) \div 2 IN CatRange(ss, lo, mid) \o CatRange(ss, mid + 1, hi)
+Cat(ss) == CatRange(ss, 1, Len(ss))
 Nb(n, to) == IF to = "last" THEN n + 1 ELSE n - 1
 (* absorb_central_ after orthogonalize_site_(n, to): the block goes into the neighbour in direction `to`, or back into n at the edge *)
 AbsorbW(nn, n, to) == IF Nb(n, to) \in 0..(nn - 1) THEN <<"write", Nb(n, to)>> ELSE <<"write", n>>
@@ -52,6 +53,12 @@ T12(nn, to, k, two, dq, acc) ==            \* k = position in the sweep (1..nn);
 Tdvp12(nn, dq) == LET r1 == T12(nn, "last", 1, FALSE, dq, <<>>)
                       r2 == T12(nn, "first", 1, FALSE, r1[2], <<>>) IN
                   r1[1] \o r2[1] \o << <<"clear", 0>>, <<"update", 0, "first">> >>
+(* a run of several '12site' sweeps consuming one recorded decision sequence *)
+Tdvp12R(nn, dq) == LET r1 == T12(nn, "last", 1, FALSE, dq, <<>>)
+                       r2 == T12(nn, "first", 1, FALSE, r1[2], <<>>) IN
+                   <<r1[1] \o r2[1] \o << <<"clear", 0>>, <<"update", 0, "first">> >>, r2[2]>>
+RECURSIVE Multi12(_, _, _)
+Multi12(nn, k, dq) == IF k = 0 THEN <<>> ELSE LET r == Tdvp12R(nn, dq) IN r[1] \o Multi12(nn, k - 1, r[2])
 Schedule(nn, m, dq) == CASE m = "dmrg1" -> Dmrg1(nn) [] m = "dmrg2" -> Dmrg2(nn) [] m = "tdvp1" -> Tdvp1(nn) [] m = "tdvp2" -> Tdvp2(nn) [] m = "tdvp12" -> Tdvp12(nn, dq)
 (* evolve / evolveC events only carry the time budget; they do not touch the cache *)
 Cache(evs) == SelectSeq(evs, LAMBDA e : e[1] \notin {"evolve", "evolve2", "evolveC"})
